@@ -67,7 +67,7 @@ def gen_wallet(tier):
 
 def enum_long(tier):
     """Records with more rows than any small fixed-size structure holds."""
-    cfgs = [(0, [0, 258], False, "seed"), (1, [5, 305], True, "mnemonic")]
+    cfgs = [(0, [0, 258], False, "seed"), (1, [5, 305], True, "mnemonic"), (2, [300, 1340], False, "seed")]
     if tier != "quick":
         cfgs += [(44, [0, 300], False, "xprv"), (0, [1000, 1260], True, "seed"), (H - 1, [0, 257], False, "mnemonic"), (3, [255, 515], True, "xprv")]
     for j, (acct, iv, testnet, src) in enumerate(cfgs):
@@ -344,7 +344,7 @@ def clauses():
                "echo; JSON round trip; Wasabi ExtPubKey at m/84'/0'/0' and 8-digit master fingerprint; non-trivial = "
                "testnet, account != 0, start > 0, 0/1 rows, e < s, or more than one call",
                gen=gen_wallet, nontrivial=nt_wallet, classes=classes_wallet, key=key_wallet,
-               enum=enum_long, enum_desc="long records: 258..300 rows per section (quick 2, thorough 6 wallets), also "
+               enum=enum_long, enum_desc="long records: 258..1040 rows per section (quick 3, thorough 7 wallets), also "
                                          "followed by a short record on the same wallet; 30 (90) different accounts on one wallet, "
                                          "then the first ones again",
                n={"quick": 480, "thorough": 8000}, shards={"quick": 16, "thorough": 16}),
